@@ -382,6 +382,15 @@ class AsmCFG(DiGraph):
     def del_block(self, block):
         super(AsmCFG, self).del_node(block.loc_key)
         del self._loc_key_to_block[block.loc_key]
+        # Forget the destinations this block was waiting for
+        for loc_key, pendings in list(viewitems(self._pendings)):
+            remaining = set(
+                pending for pending in pendings if pending.waiter is not block
+            )
+            if remaining:
+                self._pendings[loc_key] = remaining
+            else:
+                del self._pendings[loc_key]
 
 
     def add_node(self, node):
